@@ -39,9 +39,11 @@ def build_classes():
     class Stack:
         def __init__(self, net, devid, max_apdu=1024, seg='segmentedBoth', max_segs=16,
                      window=None, retries=None, apdu_timeout=None, seg_timeout=None,
-                     app_timeout=None, use_iocb=False):
+                     app_timeout=None, use_iocb=False, net_number=None, spell="plain"):
             self.net = net
             self.devid = devid
+            self.net_number = net_number     # the network layer is told the number of its (only) network
+            self.spell = spell               # how THIS stack writes its peers' addresses (see dest())
             self.address = Address(devid)
             self.device = LocalDeviceObject(
                 objectName="dev%d" % devid, objectIdentifier=("device", devid),
@@ -82,7 +84,10 @@ def build_classes():
             bind(self.nse, self.nsap)
             bind(self.app, self.asap, self.smap, self.nsap)
             self.node = Node(self.address, net.lan)
-            self.nsap.bind(self.node)
+            if net_number is None:
+                self.nsap.bind(self.node)
+            else:
+                self.nsap.bind(self.node, net_number, self.address)
             self.confirmations = []
             self.indications = []
             self.iocb_events = []
@@ -196,11 +201,25 @@ def build_classes():
                     info.maxNpduLength = npdu_len
             return info
 
+        def dest(self, other):
+            """the peer's address the way this application writes it: the plain station, or — when the
+            network layer knows its network number — the same station WITH that number ("1:20" on
+            network 1), a fresh object per request or one object reused for all of them"""
+            if self.spell == "plain" or self.net_number is None:
+                return other.address
+            if self.spell == "net-fresh":
+                return Address("%d:%d" % (self.net_number, other.devid))
+            if not hasattr(self, "_dests"):
+                self._dests = {}
+            if other.devid not in self._dests:
+                self._dests[other.devid] = Address("%d:%d" % (self.net_number, other.devid))
+            return self._dests[other.devid]
+
         def make_cpt(self, other, payload, invoke=None):
             req = ConfirmedPrivateTransferRequest(
                 vendorID=999, serviceNumber=1,
                 serviceParameters=Any(OctetString(payload)) if payload is not None else None,
-                destination=other.address)
+                destination=self.dest(other))
             if invoke is not None:
                 req.apduInvokeID = invoke
             return req
@@ -223,7 +242,7 @@ def build_classes():
         def send_unconfirmed(self, other):
             """a unicast Who-Is through the same interface the confirmed requests use"""
             from bacpypes.apdu import WhoIsRequest
-            req = WhoIsRequest(destination=other.address)
+            req = WhoIsRequest(destination=self.dest(other))
             try:
                 if isinstance(self.app, ApplicationIOController):
                     self.app.request_io(IOCB(req))
